@@ -158,8 +158,19 @@ def _c08_classify(expr):
     raise ValueError("unrecognised dunder body: " + s)
 
 
+_C08_SELF_ANSWER = {"__eq__": "True", "__le__": "True", "__ge__": "True", "__ne__": "False", "__lt__": "False", "__gt__": "False"}
+
+
 def _c08_dunder(fn):
     body = _c08_body(fn)
+    # identity fast path `if other is self: return <what reflexivity / irreflexivity gives>`: dropped, because the
+    # model proves that answer for equal operands anyway (C08.eq_equivalence, perm_order_strict_total, ...), so the
+    # function with and without it are the same function whenever the rest is one of the recognised shapes
+    if len(body) >= 2 and isinstance(body[0], ast.If) and not body[0].orelse and len(body[0].body) == 1 \
+            and isinstance(body[0].body[0], ast.Return) \
+            and ast.unparse(body[0].test) in ("other is self", "self is other") \
+            and ast.unparse(body[0].body[0].value) == _C08_SELF_ANSWER.get(fn.name):
+        body = body[1:]
     # E: length first -  if len(self) != len(other): return len(self) < len(other) ; return tuple.__op__(self, tuple(other))
     if len(body) == 2 and isinstance(body[0], ast.If) and not body[0].orelse and len(body[0].body) == 1 \
             and isinstance(body[0].body[0], ast.Return) and isinstance(body[1], ast.Return) \
